@@ -49,12 +49,30 @@ func (m *Map) CompareAndDelete(k, o any) bool {
 func (m *Map) Clear() { m.pt("Clear", true); m.m.Clear() }
 
 // Range: a point before the walk and before every callback (the walk is not a snapshot).
+//
+// Under the scheduler the keys present when the walk starts are visited in a deterministic order (the
+// real one is random, which would make schedules unrepeatable), each with the value it has when its
+// turn comes; keys deleted in the meantime are skipped, keys stored in the meantime are not visited -
+// all of which sync.Map.Range allows.
 func (m *Map) Range(f func(k, v any) bool) {
 	m.pt("Range", false)
-	m.m.Range(func(k, v any) bool {
+	if !vrt.Running() {
+		m.m.Range(f)
+		return
+	}
+	var keys []any
+	m.m.Range(func(k, _ any) bool { keys = append(keys, k); return true })
+	vrt.SortAny(keys)
+	for _, k := range keys {
 		m.pt("Range.next", false)
-		return f(k, v)
-	})
+		v, ok := m.m.Load(k)
+		if !ok {
+			continue
+		}
+		if !f(k, v) {
+			return
+		}
+	}
 }
 
 // OnceFunc, OnceValue, OnceValues: the standard definitions over the shimmed Once.
